@@ -2,6 +2,7 @@ package main
 
 import (
 	"fmt"
+	"go/types"
 	"sort"
 	"strings"
 
@@ -57,18 +58,18 @@ func secretKeyLinkRule(P *Program, R *Report) {
 	if fn == nil {
 		return
 	}
-	keysUsed := map[ssa.Value]bool{}
-	mapsUsed := map[ssa.Value]bool{}
+	// (descriptor based, so that the bookkeeping may live in a helper that receives the table, the label and
+	// the response as parameters)
+	keysUsed := map[string]bool{}
+	mapsUsed := map[string]bool{}
+	isTable := func(v ssa.Value) bool { return desc(v) == "makemap" }
 	isStore := func(f *ssa.Function, i ssa.Instruction) bool {
 		mu, ok := i.(*ssa.MapUpdate)
-		if !ok || desc(mu.Value) != skrDesc {
+		if !ok || desc(mu.Value) != skrDesc || !isTable(mu.Map) {
 			return false
 		}
-		if _, isMake := mu.Map.(*ssa.MakeMap); !isMake {
-			return false
-		}
-		keysUsed[mu.Key] = true
-		mapsUsed[mu.Map] = true
+		keysUsed[desc(mu.Key)] = true
+		mapsUsed[desc(mu.Map)] = true
 		return true
 	}
 	isCompare := func(a Atom) bool {
@@ -81,14 +82,11 @@ func secretKeyLinkRule(P *Program, R *Report) {
 				continue
 			}
 			lk := lookupOf(pr[0])
-			if lk == nil {
+			if lk == nil || !isTable(lk.X) {
 				continue
 			}
-			if _, isMake := lk.X.(*ssa.MakeMap); !isMake {
-				continue
-			}
-			keysUsed[lk.Index] = true
-			mapsUsed[lk.X] = true
+			keysUsed[desc(lk.Index)] = true
+			mapsUsed[desc(lk.X)] = true
 			return true
 		}
 		return false
@@ -100,14 +98,11 @@ func secretKeyLinkRule(P *Program, R *Report) {
 		} else if a.Want == Nil {
 			lk = lookupOf(a.V)
 		}
-		if lk == nil {
+		if lk == nil || !isTable(lk.X) {
 			return false
 		}
-		if _, isMake := lk.X.(*ssa.MakeMap); !isMake {
-			return false
-		}
-		keysUsed[lk.Index] = true
-		mapsUsed[lk.X] = true
+		keysUsed[desc(lk.Index)] = true
+		mapsUsed[desc(lk.X)] = true
 		return true
 	}
 	for _, part := range []struct {
@@ -130,7 +125,7 @@ func secretKeyLinkRule(P *Program, R *Report) {
 	var ks []string
 	okLabel := len(keysUsed) > 0
 	for k := range keysUsed {
-		lv := phiLeaves(k)
+		lv := leavesOfDesc(k)
 		ks = append(ks, strings.Join(sortedKeys(lv), "|"))
 		if !lv["arg#5[#i]"] {
 			okLabel = false
@@ -143,8 +138,47 @@ func secretKeyLinkRule(P *Program, R *Report) {
 	}
 	sort.Strings(ks)
 	R.decide(rule, kListVerify+":label", "the label of proof i is keyshareServers[i] when labels are given, else the empty label", okLabel && len(keysUsed) == 1,
-		fmt.Sprintf("label values used: %v (%d distinct SSA values)", ks, len(keysUsed)), P.Pos(fn.Pos()))
-	R.decide(rule, kListVerify+":one-table", "one table of recorded responses, created in this call", len(mapsUsed) == 1, fmt.Sprintf("%d maps", len(mapsUsed)), P.Pos(fn.Pos()))
+		fmt.Sprintf("label values used: %v (%d distinct descriptors)", ks, len(keysUsed)), P.Pos(fn.Pos()))
+	nMaps := 0
+	allInstrs(fn, func(i ssa.Instruction) {
+		if mm, ok := i.(*ssa.MakeMap); ok {
+			if mt, ok := mm.Type().Underlying().(*types.Map); ok && isBigIntPtr(mt.Elem()) {
+				nMaps++
+			}
+		}
+	})
+	R.decide(rule, kListVerify+":one-table", "one table of recorded responses, created in this call", len(mapsUsed) == 1 && nMaps == 1, fmt.Sprintf("%d tables used, %d created", len(mapsUsed), nMaps), P.Pos(fn.Pos()))
+}
+
+// leavesOfDesc: the alternatives of a phi descriptor `phi(a|b|...)` (the descriptor itself otherwise).
+func leavesOfDesc(d string) map[string]bool {
+	out := map[string]bool{}
+	if strings.HasPrefix(d, "phi(") && strings.HasSuffix(d, ")") {
+		depth := 0
+		cur := ""
+		for _, ch := range d[4 : len(d)-1] {
+			switch {
+			case ch == '(' || ch == '[':
+				depth++
+			case ch == ')' || ch == ']':
+				depth--
+			}
+			if ch == '|' && depth == 0 {
+				for k := range leavesOfDesc(cur) {
+					out[k] = true
+				}
+				cur = ""
+				continue
+			}
+			cur += string(ch)
+		}
+		for k := range leavesOfDesc(cur) {
+			out[k] = true
+		}
+		return out
+	}
+	out[d] = true
+	return out
 }
 
 func lookupOf(v ssa.Value) *ssa.Lookup {
@@ -171,8 +205,16 @@ func secretKeyResponseFieldRuleFor(P *Program, R *Report, rule string) {
 			continue
 		}
 		var rets []string
+		retSet := map[string]bool{}
 		for _, r := range returnsOf(skr) {
-			rets = append(rets, desc(r.Results[0]))
+			// a returned nil ("no such response") is not a field; a value returned through a comma-ok
+			// lookup or a phi is described by its non-nil leaves
+			for d := range phiLeaves(r.Results[0]) {
+				if d != "nil" && !retSet[d] {
+					retSet[d] = true
+					rets = append(rets, d)
+				}
+			}
 		}
 		if len(rets) != 1 {
 			R.und(rule, FuncKey(skr)+":field", "SecretKeyResponse returns one field", fmt.Sprint(rets), P.Pos(skr.Pos()))
